@@ -97,6 +97,7 @@ EnumSteps(f) ==
 
 ScalarShapes == {[t |-> 5, l |-> 1], [t |-> 9, l |-> 1], [t |-> 5, l |-> 3], [t |-> 9, l |-> 3], [t |-> 5, l |-> 2]}
                \cup (IF Thorough THEN {[t |-> 1, l |-> 1], [t |-> 8, l |-> 1], [t |-> 12, l |-> 1], [t |-> 13, l |-> 3], [t |-> 18, l |-> 1]} ELSE {})
+ZeroDefaultShapes == {[t |-> 9, d |-> ""], [t |-> 12, d |-> ""], [t |-> 5, d |-> "0"], [t |-> 8, d |-> "false"]}
 RefStyles == IF Thorough THEN {"abs", "rel"} ELSE {"abs"}
 RefTo(full, name, style) == IF style = "abs" THEN "." \o full ELSE name
 
@@ -121,6 +122,10 @@ AddField(f) ==
                         AppendField(f, i, NewField(nm, n, 1, KEnum, ".dep.DO"))}
                        \cup (IF Thorough THEN {AppendField(f, i, NewField(nm, n, 1, 0, ".dep.DM")), AppendField(f, i, NewField(nm, n, 1, 0, ".dep.DO"))} ELSE {}))
             \cup {AppendField(f, i, [NewField(nm, 536870911, 1, 5, "") EXCEPT !.name = "fmax"])}
+            \* fields declared with a default that is the zero value of their kind: HasDefault, though Default() is unchanged
+            \* (proto3 has no defaults; Valid filters the files where presence is implicit)
+            \cup (IF f.syntax = "proto3" THEN {}
+                  ELSE {AppendField(f, i, [NewField(nm, n, 1, z.t, "") EXCEPT !.hd = TRUE, !.def = z.d]) : z \in ZeroDefaultShapes})
     : i \in Targets(f)}
 
 \* composite additions at the end of the last message
@@ -199,8 +204,9 @@ ModifyField(f) ==
            first == m.fields[1]
            firstJSON == IF first.hj THEN first.json ELSE JSONCamel(first.name)
            untouched == ~x.hj /\ ~x.hd /\ x.packed = "" /\ ~x.lazy /\ ~x.dep /\ x.feat = NoFS
-           defaults == CASE x.type = 5 -> {"-7"} [] x.type = 9 -> {"hello"} [] x.type = 8 -> {"true"} [] x.type = 1 -> {"1.5", "inf"}
-                         [] x.type = 12 -> {"abc"} [] x.type = 13 -> {"7"} [] x.type = 18 -> {"-9"}
+           \* (an explicit default that equals the zero value -- "", 0, false, the first enum value -- is still a declared default)
+           defaults == CASE x.type = 5 -> {"-7", "0"} [] x.type = 9 -> {"hello", ""} [] x.type = 8 -> {"true", "false"} [] x.type = 1 -> {"1.5", "inf", "0"}
+                         [] x.type = 12 -> {"abc", ""} [] x.type = 13 -> {"7", "0"} [] x.type = 18 -> {"-9", "0"}
                          [] x.type = KEnum -> LET t == Target(Ctx(f, FALSE), f, MsgFullOf(f, NM(f)), KEnum, x.tname)
                                                   vs == EnumVals(f, t)
                                               IN {vs[q].name : q \in 1..Len(vs)}
